@@ -384,6 +384,7 @@ def run_dataset(case, ctx):
             opts["file_parallelism"] = None
             fp = 1 if fmt != "tfrec" else (os.cpu_count() or 1)
         mon = openmon.OpenMonitor([root / "ds"])
+        dsops._AsyncBridge.idle_s = 0.03  # pylint: disable=protected-access
         try:
             if iface == "tfdata" and case.get("fp_none"):
                 it = iter(ds.as_tfdataset("train", batch_size=0,
